@@ -932,6 +932,15 @@ func (c *Case) InjectFault(r *rand.Rand) *Fault {
 		switch {
 		case lt.K == String:
 			text = f.O.Options[0] + "x"
+			for member := true; member; {
+				member = false
+				for _, op := range f.O.Options {
+					if op == text {
+						member = true
+						text += "x"
+					}
+				}
+			}
 		case lt.K == Duration:
 			text = "7h0m0s"
 		case lt.K.IsFloat():
